@@ -117,6 +117,19 @@ func genY(ch *vs.Choices, tier string) *yProg {
 		if uniform == "wildcard" {
 			p.Calls = []string{"c0-x"}
 		}
+		if p.MaxCalls == 1000 {
+			// the shipped limit is only affordable within the step budget for a cycle of one task without a
+			// forwarding wildcard twin (a three-task cycle through twins needs 6 000 task calls)
+			twin := false
+			for _, ek := range p.EdgeKinds {
+				if strings.HasPrefix(ek, "wildcard") {
+					twin = true
+				}
+			}
+			if k > 1 || twin {
+				p.MaxCalls = 120
+			}
+		}
 		p.YAML = sb.String()
 		return p
 	}
